@@ -6,7 +6,7 @@ import worker as W
 import timeouts as T
 
 PROP = 'C08'
-REPLAYERS = {'pool.Worker.workloop': 'replayers/workloop.py'}
+REPLAYERS = {'pool.Worker.workloop': 'replayers/workloop.py', 'pool.Pool._terminate_pool': 'replayers/terminate_pool.py'}
 
 ASSUMPTIONS = [
     'the termination signal is modelled as arriving inside wait_for_job / wait_for_syn / the task / put (the points where the '
@@ -18,8 +18,148 @@ OUT_OF_REACH = [
     'that terminate() returns within a bounded time and that no pool thread is running afterwards (liveness; needs thread progress)',
     'signals arriving between two arbitrary statements of the worker loop other than at the modelled points '
     '(e.g. inside put while the result-queue write lock is held)',
-    'Pool._terminate_pool / Worker.__call__ (they replace sys.exit / join threads): not under contract',
+    'Worker.__call__ (replaces sys.exit, runs workloop and _do_exit): not under contract; of Pool._terminate_pool the order of '
+    'the calls is proved, not that each of them returns',
 ]
+
+
+def terminate_pool_contract(w):
+    """Pool._terminate_pool (the finalizer behind terminate() and garbage collection): who is told what, in which order"""
+    g = w.classes['g']
+    g.fields.update({'ev': IntS, 'told_at': MapS(IntS, IntS), 'stop_at': MapS(IntS, IntS), 'sig_at': MapS(IntS, IntS),
+                     'join_at': MapS(IntS, IntS), 'alive1': MapS(IntS, BoolS), 'alive2': MapS(IntS, BoolS),
+                     'feeder_sentinels': IntS, 'result_sentinels': IntS, 'helped_at': IntS, 'closed_in': BoolS,
+                     'closed_out': BoolS})
+
+    def tick(ex):
+        n = gget(ex, 'ev').e + 1
+        gset(ex, 'ev', SV(IntS, n))
+        return SV(IntS, n)
+
+    def mark(field):
+        def f(ex, args, kw):
+            m = gget(ex, field)
+            prove(ex, 'order.%s_once' % field, m.shape.select(m, SV(IntS, args[0].id)).e <= 0)
+            gset(ex, field, m.shape.store(m, SV(IntS, args[0].id), tick(ex)))
+            return SNone()
+        return f
+
+    def th_terminate(ex, args, kw):
+        ex.path.write_field(args[0], '_state', mk_int(2))
+        return mark('told_at')(ex, args, kw)
+
+    def alive(field):
+        def f(ex, args, kw):
+            b = BoolS.fresh('alive')
+            m = gget(ex, field)
+            gset(ex, field, m.shape.store(m, SV(IntS, args[0].id), b))
+            return b
+        return f
+    w.cls('ThreadT', module='pool', pyname='PoolThread', fields={'_state': IntS},
+          methods={'terminate': th_terminate, 'stop': mark('stop_at')})
+    w.cls('WorkerT', fields={'pid': IntS, '_popen': opt(ValS)},
+          methods={'_is_alive': alive('alive1'), 'is_alive': alive('alive2'), 'terminate': mark('sig_at'), 'join': mark('join_at')})
+
+    def q_put(ex, args, kw):
+        q = args[0]
+        scope = ex.root.scopes[0]
+        if ex.path.decide(q.e == scope['taskqueue'].e):
+            prove(ex, 'order.feeder_told_before_its_sentinel', ex.path.read_field(scope['task_handler'], '_state').e == 2)
+            gset(ex, 'feeder_sentinels', SV(IntS, gget(ex, 'feeder_sentinels').e + 1))
+        else:
+            ex.path.assume(q.e == scope['outqueue'].e)
+            gset(ex, 'result_sentinels', SV(IntS, gget(ex, 'result_sentinels').e + 1))
+        tick(ex)
+        return SNone()
+
+    def result_sentinel(ex, args, kw):
+        gset(ex, 'result_sentinels', SV(IntS, gget(ex, 'result_sentinels').e + 1))
+        tick(ex)
+        return SNone()
+
+    def q_close(ex, args, kw):
+        scope = ex.root.scopes[0]
+        if ex.path.decide(args[0].e == scope['inqueue'].e):
+            gset(ex, 'closed_in', mk_bool(True))
+        else:
+            gset(ex, 'closed_out', mk_bool(True))
+        return SNone()
+
+    def help_finish(ex, args, kw):
+        gset(ex, 'helped_at', tick(ex))
+        return SNone()
+    TH = 'told_at[idof(%s)]'
+    every_worker = ('all(implies(0 <= j and j < len(pool), %s) for j in ints())')
+    signalled = every_worker % ('(g.sig_at[idof(at(pool, j))] > 0) == g.alive1[idof(at(pool, j))] and '
+                                'implies(g.sig_at[idof(at(pool, j))] > 0, g.sig_at[idof(at(pool, j))] > g.told_at[idof(worker_handler)] '
+                                'and g.sig_at[idof(at(pool, j))] > g.told_at[idof(task_handler)])')
+    joined = every_worker % ('(g.join_at[idof(at(pool, j))] > 0) == (g.alive2[idof(at(pool, j))] and at(pool, j)._popen is not None) and '
+                             'implies(g.join_at[idof(at(pool, j))] > 0, g.join_at[idof(at(pool, j))] > g.stop_at[idof(result_handler)])')
+    zero = ('all(g.told_at[k] == 0 and g.stop_at[k] == 0 and g.sig_at[k] == 0 and g.join_at[k] == 0 and not g.alive1[k] '
+            'and not g.alive2[k] for k in ints())')
+    return Contract(
+        'pool.Pool._terminate_pool', prop=PROP,
+        params={'cls': ValS, 'taskqueue': ValS, 'inqueue': ValS, 'outqueue': ValS, 'pool': list_of(ref('WorkerT')),
+                'worker_handler': ref('ThreadT'), 'task_handler': ref('ThreadT'), 'result_handler': ref('ThreadT'),
+                'cache': ValS, 'timeout_handler': opt(ref('ThreadT')), 'help_stuff_finish_args': ValS},
+        externals={'<opaque>.put': q_put, '<opaque>.close': q_close, 'pool.debug': lambda ex, a, k: SNone(),
+                   # cls may be a subclass (Celery overrides all three): assumed to do what the methods of Pool do -- help the
+                   # feeder finish, put one sentinel on the outqueue, join the feeder
+                   '<opaque>._help_stuff_finish': help_finish, '<opaque>._set_result_sentinel': result_sentinel,
+                   '<opaque>._stop_task_handler': lambda ex, a, k: mark('stop_at')(ex, a[1:], k),
+                   },
+        requires={
+            'fresh': 'g.ev == 0 and g.feeder_sentinels == 0 and g.result_sentinels == 0 and g.helped_at == 0 and '
+                     'not g.closed_in and not g.closed_out and ' + zero,
+            'objects': 'allocated(pool) and len(pool) >= 0 and allocated(worker_handler) and allocated(task_handler) and '
+                       'allocated(result_handler) and (timeout_handler is None or allocated(val(timeout_handler))) and '
+                       'worker_handler != task_handler and worker_handler != result_handler and task_handler != result_handler '
+                       'and (timeout_handler is None or (val(timeout_handler) != worker_handler and val(timeout_handler) != '
+                       'task_handler and val(timeout_handler) != result_handler)) and taskqueue != outqueue and inqueue != outqueue',
+            'workers': 'all(implies(0 <= i and i < j and j < len(pool), at(pool, i) != at(pool, j)) for i in ints() for j in ints()) '
+                       'and all(implies(0 <= j and j < len(pool), allocated(at(pool, j))) for j in ints())',
+        },
+        modifies=['g.*', 'ThreadT._state'],
+        loops={0: {'inv': {'signalled_so_far': 'all(implies(0 <= j and j < len(pool), '
+                                               '(g.sig_at[idof(at(pool, j))] > 0) == (j < _i and g.alive1[idof(at(pool, j))]) and '
+                                               'implies(g.sig_at[idof(at(pool, j))] > 0, g.sig_at[idof(at(pool, j))] > g.told_at[idof(worker_handler)] '
+                                               'and g.sig_at[idof(at(pool, j))] > g.told_at[idof(task_handler)])) for j in ints())',
+                           'clock': 'g.ev > g.told_at[idof(worker_handler)] and g.ev > g.told_at[idof(task_handler)] and '
+                                    'g.told_at[idof(worker_handler)] == 1 and g.told_at[idof(task_handler)] == 2',
+                           'rest': 'g.feeder_sentinels == 1 and g.result_sentinels == 1 and g.helped_at > 0 and '
+                                   'g.stop_at[idof(result_handler)] == 0 and g.stop_at[idof(task_handler)] == 0 and '
+                                   'all(g.join_at[k] == 0 for k in ints())'},
+                   'modifies': ['g.ev', 'g.sig_at', 'g.alive1']},
+               1: {'inv': {'signalled': signalled,
+                           'joined_so_far': 'all(implies(0 <= j and j < len(pool), '
+                                            '(g.join_at[idof(at(pool, j))] > 0) == (j < _i and g.alive2[idof(at(pool, j))] and at(pool, j)._popen is not None) and '
+                                            'implies(g.join_at[idof(at(pool, j))] > 0, g.join_at[idof(at(pool, j))] > g.stop_at[idof(result_handler)])) for j in ints())',
+                           'clock': 'g.ev >= g.stop_at[idof(result_handler)] and g.stop_at[idof(result_handler)] > 0 and '
+                                    'g.stop_at[idof(task_handler)] > 0 and g.stop_at[idof(task_handler)] < g.stop_at[idof(result_handler)]',
+                           'rest': 'g.feeder_sentinels == 1 and g.result_sentinels == 1 and g.helped_at > 0 and '
+                                   'g.told_at[idof(worker_handler)] == 1 and g.told_at[idof(task_handler)] == 2 and '
+                                   'g.told_at[idof(result_handler)] == 0 and '
+                                   '(timeout_handler is None or (g.told_at[idof(val(timeout_handler))] > 0 and '
+                                   'g.stop_at[idof(val(timeout_handler))] > g.stop_at[idof(result_handler)]))'},
+                   'modifies': ['g.ev', 'g.join_at', 'g.alive2']}},
+        ensures={
+            # no replacement is forked for a worker we are about to kill: the supervisor is told first, the feeder next
+            'supervisor_then_feeder_are_told_first': 'g.told_at[idof(worker_handler)] == 1 and g.told_at[idof(task_handler)] == 2 '
+                                                    'and worker_handler._state == 2 and task_handler._state == 2',
+            'one_sentinel_each_for_feeder_and_result_thread': 'g.feeder_sentinels == 1 and g.result_sentinels == 1 and g.helped_at > 0',
+            # results delivered before the call stay intact: the result thread is not terminated, it drains and is joined
+            'result_thread_is_joined_not_terminated': 'g.told_at[idof(result_handler)] == 0 and '
+                                                      'result_handler._state == old(result_handler._state) and '
+                                                      'g.stop_at[idof(result_handler)] > g.stop_at[idof(task_handler)] and '
+                                                      'g.stop_at[idof(task_handler)] > 0',
+            'time_limit_thread_told_and_joined': 'implies(timeout_handler is not None, g.told_at[idof(val(timeout_handler))] > 0 '
+                                                 'and g.stop_at[idof(val(timeout_handler))] > 0)',
+            'every_worker_alive_is_signalled_after_the_supervisor_was_told': 'implies(len(pool) > 0, %s)' % signalled,
+            'every_worker_still_alive_is_joined_after_the_helper_threads': 'implies(len(pool) > 0, %s)' % joined,
+            'queues_closed_at_the_end': 'g.closed_in == truthy(inqueue) and g.closed_out == truthy(outqueue)',
+            'no_worker_is_touched_in_an_empty_pool': 'implies(len(pool) == 0, all(g.sig_at[k] == 0 and g.join_at[k] == 0 for k in ints()))',
+        },
+    )
 
 
 class _Exit(Exception):
@@ -162,7 +302,8 @@ def build(w):
         ensures={'dying_worker_is_signalled': 'implies(g.signals > old(g.signals), g.sig_target == pid and g.sig_num == 15)'},
         raises={'OSError': {'only_other_than_no_such_process': 'exc.errno != 3'}},
     )
-    return [W.workloop_contract(PROP), cleanup, do_exit, term_job, on_death, H.set_terminated_contract(PROP)]
+    return [W.workloop_contract(PROP), cleanup, do_exit, term_job, on_death, H.set_terminated_contract(PROP),
+            terminate_pool_contract(w)]
 
 
 MANIFEST_ENTRY = {
@@ -173,7 +314,15 @@ MANIFEST_ENTRY = {
             'restores the default disposition and raises SystemExit(-(256-signum)) on the first signal and os._exit(EX_SOFTWARE) '
             'on a second one; _do_exit runs the exit callback once with the status, sends the death notice and always ends in '
             'os._exit(status); terminate_job signals exactly the worker with that pid and marks it terminated only if the signal '
-            'was delivered; on_death signals the dying worker; _set_terminated fails that job with Terminated.',
+            'was delivered; on_death signals the dying worker; _set_terminated fails that job with Terminated.  Pool._terminate_pool '
+            '(two loop invariants over the worker list, any pool size): the supervisor is told to terminate first and the feeder '
+            'next, before any worker is signalled (no replacement is forked for a worker being killed); the feeder and the result '
+            'thread get exactly one sentinel each; the result thread is joined but never terminated (it keeps draining, so '
+            'results already delivered stay intact); exactly the workers alive at the first test are signalled, once; exactly '
+            'the workers still alive afterwards (with a process object) are joined, once, after the helper threads; both queues '
+            'are closed.',
     'note': 'Bounded-time return of terminate() and "no thread running afterwards" are liveness and out of reach; '
-            '_terminate_pool and Worker.__call__ are not under contract; signal delivery is assumed.',
+            'of _terminate_pool the order and targets of the calls are proved, with the three overridable hooks of the class '
+            '(_help_stuff_finish, _set_result_sentinel, _stop_task_handler) as assumed contracts; Worker.__call__ is not under '
+            'contract; signal delivery is assumed.',
 }
